@@ -40,7 +40,7 @@ def _data(rng, dt, shape):
     return vals
 
 
-def gen_program(rng, size: int = 10, with_args: bool = True) -> list:
+def gen_program(rng, size: int = 10, with_args: bool = True, control_flow: bool = True) -> list:
     steps: list = []
     vs: list = []  # _V per var
 
@@ -288,7 +288,7 @@ def gen_program(rng, size: int = 10, with_args: bool = True) -> list:
                 emit({"op": "inline", "args": [i, j]}, _V("tensor", "i64", [3], vs[i].const and vs[j].const),
                      _V("tensor", "f32", [3], vs[i].const and vs[j].const))
         elif choice == "if":
-            i = pick(lambda v: is_num(v))
+            i = pick(lambda v: is_num(v)) if control_flow else None
             if i is not None:
                 c = new_const("bool", [], "value")
                 emit({"op": "if", "args": [c, i]}, _V("tensor", vs[i].dt, vs[i].shape, False))
@@ -692,3 +692,89 @@ def off_check_program(steps: list, sel: str, seed: int) -> dict:
         if why:
             fails.append((f"off-behaviour-differs:{steps[on['step_of_var'][i]]['op']}", f"var {i}: {why}"))
     return {"failures": fails}
+
+
+# ------------------------------------------------------------- history correspondence (tie H, C07)
+
+def _const_array(step):
+    how = step["how"]
+    if how in ("value", "init"):
+        return _array(step)
+    if how == "value_int":
+        return np.array(step["data"], dtype=np.int64)
+    if how == "value_ints":
+        return np.array(list(step["data"]), dtype=np.int64).reshape(-1)
+    if how == "value_float":
+        return np.array(step["data"], dtype=np.float32)
+    if how == "value_floats":
+        return np.array(list(step["data"]), dtype=np.float32).reshape(-1)
+    if how == "value_string":
+        return np.array(step["data"], dtype=np.str_)
+    return np.array(list(step["data"]), dtype=np.str_).reshape(-1)
+
+
+def record_history(steps: list, sel: str, script=None, at: str = "run") -> dict:
+    """Run the program and describe it as a model history (`VP.Step` list) together with the values
+    the real code attached. Programs with control flow are not described (returns {"skip": ...})."""
+    if any(st["op"] == "if" for st in steps):
+        return {"skip": "control flow"}
+    reg = L.PidRegistry()
+    vars_: list = []
+    ref_of: dict = {}
+    hist: list = []
+    real_vals: list = []
+    state = {"n": 0}
+
+    def fn(model):
+        i = state["n"]
+        state["n"] += 1
+        return None if script is None else script(i, model)
+
+    sb = L.ScriptedBackend(fn, at=at)
+    with warnings.catch_warnings():
+        warnings.simplefilter("ignore")
+        with L.backend_setting(sel), sb.installed():
+            for k, st in enumerate(steps):
+                before = len(sb.log)
+                try:
+                    new = apply_step(st, vars_)
+                except Exception as e:  # noqa: BLE001
+                    return {"raised": (k, type(e).__name__, str(e)[:200])}
+                calls = sb.log[before:]
+                if len(calls) > 1:
+                    return {"skip": "several backend calls in one step"}
+                node = new[0]._op
+                idx = len(hist)
+                outs = [{"key": key, "type": L.canon_type(v.type)} for key, v in node.outputs.get_vars().items()]
+                if st["op"] == "arg":
+                    hist.append({"k": "argument", "key": "arg", "type": L.canon_type(new[0].type)})
+                elif st["op"] == "const":
+                    arr = _const_array(st)
+                    hist.append({"k": "constant", "key": outs[0]["key"], "type": outs[0]["type"],
+                                 "payload": {"p": "arr", "dt": L.arr_code(arr), "shape": list(arr.shape), "pid": reg(arr)}})
+                else:
+                    ins, names, seen = [], [], set()
+                    for key, v in node.inputs.get_vars().items():
+                        if id(v) in seen:
+                            continue
+                        seen.add(id(v))
+                        ins.append(ref_of[id(v)])
+                        names.append(key)
+                    if calls:
+                        c = calls[0]
+                        backend = ({"raise": c["raise"]} if "raise" in c else
+                                   {"names": c.get("names", []), "vals": [L.to_ref_json(o, reg) for o in c.get("objs", [])]})
+                    else:
+                        backend = {"names": [], "vals": []}
+                    h = {"sel": sel, "inputs": ins, "inNames": names, "outs": outs, "backend": backend}
+                    if type(node).__name__ == "_Inline":
+                        h.update({"k": "inline", "gnames": [o.name for o in node.graph.output]})
+                    else:
+                        h.update({"k": "standard", "hasSubgraph": next(iter(node.subgraphs), None) is not None})
+                    hist.append(h)
+                for j, (key, v) in enumerate(node.outputs.get_vars().items()):
+                    ref_of[id(v)] = {"node": idx, "out": j}
+                real_vals.append([{"key": key, "value": L.canon_pv(v._value, reg)}
+                                  for key, v in node.outputs.get_vars().items()])
+                vars_.extend(new)
+    return {"steps": hist, "real": real_vals}
